@@ -48,7 +48,7 @@ fn zone_file(off: i32) -> Vec<u8> {
     tzif::write(&tzif::FileModel { version: 2, v1: b.clone(), v2: Some(b), footer: vec![] })
 }
 
-fn bytes_of(c: &Content) -> Vec<u8> {
+pub fn bytes_of(c: &Content) -> Vec<u8> {
     match c {
         Content::Zone(off) => zone_file(*off),
         Content::Garbage => b"this is not a TZif file".to_vec(),
@@ -243,6 +243,20 @@ fn check_local(c: &ResCase, st: &mut Stats) -> Result<(), String> {
 
 pub fn replay(kind: &str, case: &Value) -> Result<(), String> {
     let c: ResCase = serde_json::from_value(case.clone()).map_err(|e| e.to_string())?;
+    if kind == "res-alloc-only" {
+        use crate::props::c19;
+        check_res(&c, &mut Stats::new())?;
+        let bin = c19::build_probe("alloc", &["--features", "alloc"]).map_err(|log| format!("alloc-only probe does not build: {log}"))?;
+        let p = c19::resolution_only_case(&c);
+        let corpus = crate::run::verif_dir().join(format!("build/c20-corpus-{}.json", std::process::id()));
+        std::fs::write(&corpus, serde_json::to_string(&vec![p.clone()]).unwrap()).map_err(|e| e.to_string())?;
+        let lines = c19::run_probe(&bin, &corpus);
+        let _ = std::fs::remove_file(&corpus);
+        let lines = lines?;
+        let here = c19::transcript_alloc::transcript_alloc(&p);
+        let there = lines.first().and_then(|l| l.split("\t#A").nth(1)).unwrap_or("").to_string();
+        return if here == there { Ok(()) } else { Err(format!("alloc-only build prints {there}, std build prints {here}")) };
+    }
     if kind == "local" {
         check_local(&c, &mut Stats::new())
     } else {
@@ -263,7 +277,7 @@ pub fn arb_case() -> SBoxedStrategy<ResCase> {
         1 => (pad.clone(), pad.clone()).prop_map(|(a, b)| format!("{a}{b}")),
         1 => (name.clone(), pad).prop_map(|(n, p)| format!("{p}:{n}")),
     ];
-    let dirs = proptest::collection::vec(proptest::sample::select(vec!["/usr/share/zoneinfo", "/share/zoneinfo", "/etc/zoneinfo", "/d1", "/d2", "", "rel"]), 0..4).prop_map(|v| v.into_iter().map(|s| s.to_string()).collect::<Vec<String>>());
+    let dirs = proptest::collection::vec(proptest::sample::select(vec!["/usr/share/zoneinfo", "/share/zoneinfo", "/etc/zoneinfo", "/d1", "/d2", "", "rel", "/", "/d1/", "//", "/usr/share/zoneinfo/"]), 0..4).prop_map(|v| v.into_iter().map(|s| s.to_string()).collect::<Vec<String>>());
     let content = prop_oneof![4 => (1i32..1000).prop_map(|k| Content::Zone(k * 60)), 2 => Just(Content::Garbage), 1 => Just(Content::Empty), 2 => Just(Content::Denied)];
     (tz, dirs, proptest::collection::vec((any::<u32>(), content, 0u8..6), 0..6))
         .prop_map(|(tz, dirs, files)| {
@@ -277,6 +291,10 @@ pub fn arb_case() -> SBoxedStrategy<ResCase> {
                 }
                 for d in &dirs {
                     cands.push(format!("{d}/{n}"));
+                    // where a resolver that "normalises" the directory would look instead (never to be opened)
+                    if d.ends_with('/') {
+                        cands.push(format!("{}/{n}", d.trim_end_matches('/')));
+                    }
                 }
                 cands.push(n);
             }
@@ -293,11 +311,14 @@ pub fn arb_case() -> SBoxedStrategy<ResCase> {
 
 pub fn run(ctx: &Ctx) -> Outcome {
     let mut out = Outcome::new(
-        "TZ values {empty, 'localtime', names, TZ descriptions that are also plausible file names ('UTC0', 'EST5EDT,M3.2.0,M11.1.0'), ':'-prefixed, absolute, relative, padded with ASCII or Unicode-only whitespace on either side, ':' after padding, non-sentences, non-ASCII} x directory lists of 0..3 entries (incl. empty and relative directories) \
+        "TZ values {empty, 'localtime', names, TZ descriptions that are also plausible file names ('UTC0', 'EST5EDT,M3.2.0,M11.1.0'), ':'-prefixed, absolute, relative, padded with ASCII or Unicode-only whitespace on either side, ':' after padding, non-sentences, non-ASCII} x directory lists of 0..3 entries (incl. empty and relative directories, the root, directories with a trailing slash) \
          x virtual file systems populated preferentially on the candidate paths (valid TZif files of distinct zones, garbage, empty files), driven through the injectable read function, which records every requested path. Oracle: a reference resolver written from the property text / tzset(3): exact sequence of opened paths + outcome class + decoded zone. \
          Non-trivial: at least two candidate paths, or file and description both viable, or a malformed file present on a candidate path, or a ':' value, or a padded value.",
     );
-    out.assumptions = vec!["the read function is a plain fn reading a thread-local virtual file system of the harness (no real file system involved)".into()];
+    out.assumptions = vec![
+        "the read function is a plain fn reading a thread-local virtual file system of the harness (no real file system involved)".into(),
+        "the property is checked in both configurations in which TimeZoneSettings exists: default features (in-process) and `alloc` without `std` (through C19's probe binary, 4 000 cases quick / 60 000 thorough)".into(),
+    ];
     let cases = ctx.tier.pick(60_000u32, 3_000_000u32);
     let strat = arb_case();
     let rs = par_shards(16, |shard, st| pt_shard(ctx, "res", shard, cases, &strat, st, check_res));
@@ -307,6 +328,48 @@ pub fn run(ctx: &Ctx) -> Outcome {
     }
     let rs = par_shards(4, |shard, st| pt_shard(ctx, "local", 100 + shard, cases / 10, &strat, st, check_local));
     out.absorb_all(rs);
+    if out.failure.is_some() {
+        return out;
+    }
+    // the same resolution in the other configuration in which settings exist: tz-rs built with `alloc` only (no `std`). A probe binary
+    // (cfgprobe, C19's) runs the cases there; each must first pass the reference comparison above, then print what the std build prints
+    // (paths opened, in order, and the result).
+    {
+        use crate::props::c19;
+        let n = ctx.tier.pick(4_000usize, 60_000usize);
+        let mut dr = Drawer::new(ctx, "alloc-only", 0);
+        let mut st = Stats::new();
+        let cases: Vec<ResCase> = (0..n).map(|_| dr.draw(&strat)).collect();
+        let res = (|| -> Result<(), Failure> {
+            for c in &cases {
+                check_res(c, &mut st).map_err(|m| Failure::new("res", m, c))?;
+            }
+            let bin = c19::build_probe("alloc", &["--features", "alloc"]).map_err(|log| Failure::new("infra", format!("the alloc-only probe does not build (see {log}); C19 decides whether that is a violation"), json!(null)))?;
+            let pcases: Vec<c19::transcript::PCase> = cases.iter().map(c19::resolution_only_case).collect();
+            let corpus = crate::run::verif_dir().join(format!("build/c20-corpus-{}.json", std::process::id()));
+            std::fs::write(&corpus, serde_json::to_string(&pcases).unwrap()).map_err(|e| Failure::new("infra", e.to_string(), json!(null)))?;
+            let lines = c19::run_probe(&bin, &corpus).map_err(|e| Failure::new("infra", e, json!(null)));
+            let _ = std::fs::remove_file(&corpus);
+            let lines = lines?;
+            if lines.len() != cases.len() {
+                return Err(Failure::new("infra", format!("alloc-only probe printed {} lines for {} cases", lines.len(), cases.len()), json!(null)));
+            }
+            for ((c, p), line) in cases.iter().zip(&pcases).zip(&lines) {
+                st.eval(1);
+                let here = c19::transcript_alloc::transcript_alloc(p);
+                let there = line.split("\t#A").nth(1).unwrap_or("");
+                if here != there {
+                    return Err(Failure::new("res-alloc-only", format!("TZ={:?} dirs={:?} vfs={:?}: tz-rs built with `alloc` only (no `std`) resolves it differently:\n  alloc-only: {}\n  std (agrees with the reference resolver): {}", c.tz, c.dirs, c.vfs.keys().collect::<Vec<_>>(), there.chars().take(300).collect::<String>(), here.chars().take(300).collect::<String>()), c));
+                }
+                st.class("resolved_identically_in_alloc_only_build");
+            }
+            Ok(())
+        })();
+        out.stats.merge(st);
+        if let Err(f) = res {
+            out.failure = Some(f);
+        }
+    }
     let _ = MLtt::new;
     out
 }
